@@ -654,7 +654,7 @@ def from_preset(chk):
         return o
 
     for preset, zat, kind in cases:
-        rep = {"what": "preset", "preset": preset, "Z": zat}
+        rep = {"what": "preset", "preset": preset, "atnum": zat}
 
         def np_load(eng_, path, preset=preset, zat=zat, kind=kind):
             calls["load"].append(path)
@@ -731,8 +731,12 @@ def from_preset(chk):
                     k1, i1 = z3.Int("k1"), z3.Int("i1")
                     npt_a = c["conv"][0][0][0]
                     pts_a, rad_a, deg_a = c["find"][0][0][:3]
-                    goals += [z3.Implies(z3.And(k1 >= 0, k1 < K), z3.And(T.zi(npt_a.fn(k1)) == NPTS(k1), T.zr(rad_a.fn(k1)) == RADR(k1), T.zi(deg_a.fn(k1)) == DEGC(k1))),
-                              z3.Implies(z3.And(i1 >= 0, i1 < S), z3.And(T.zr(pts_a.fn(i1)) == Rr(i1), T.zi(dg.fn(i1)) == DSEC(i1)))]
+                    goals += [z3.Implies(z3.And(i1 >= 0, i1 < S), z3.And(T.zr(pts_a.fn(i1)) == Rr(i1), T.zi(dg.fn(i1)) == DSEC(i1)))]
+                    # HOW the table reaches the sector map (element by element, in table order) is a proof step, not a statement of the property: the
+                    # sector map only depends on how many boundaries lie below a node, so e.g. a reversed boundary array gives the same grid
+                    chk.add(f"{tag}/callee-pre/sector-map-gets-the-tabulated-radii-and-the-converted-sizes", hy,
+                            z3.Implies(z3.And(k1 >= 0, k1 < K), z3.And(T.zi(npt_a.fn(k1)) == NPTS(k1), T.zr(rad_a.fn(k1)) == RADR(k1), T.zi(deg_a.fn(k1)) == DEGC(k1))),
+                            kind="callee-pre", func=fq, meta={"replay": rep})
                 chk.add(f"{tag}/post/degrees-are-the-sector-map-of-the-radial-nodes-over-the-converted-table", hy, z3.And(*goals), func=fq, meta={"replay": rep})
 
 
